@@ -554,10 +554,35 @@ func StrLen(a *Term) *Term {
 		if n, ok := ufFixedLen[a.S]; ok {
 			return IntC(int64(n))
 		}
+	case a.Op == "var":
+		if n, ok := fixedLenOfVar(a.S); ok {
+			return IntC(n)
+		}
 	case a.Op == "ite":
 		return Ite(a.Args[0], StrLen(a.Args[1]), StrLen(a.Args[2]))
 	}
 	return mkInt("str.len", big.NewInt(0), maxStrLen, a)
+}
+
+// fixedLenOfVar: variables named "<label>!len<N>#k" have length N by construction (the solver
+// side condition is emitted where the variable is introduced).
+func fixedLenOfVar(name string) (int64, bool) {
+	i := strings.LastIndex(name, "!len")
+	if i < 0 {
+		return 0, false
+	}
+	j := strings.IndexByte(name[i:], '#')
+	if j < 0 {
+		return 0, false
+	}
+	var n int64
+	for _, c := range name[i+4 : i+j] {
+		if c < '0' || c > '9' {
+			return 0, false
+		}
+		n = n*10 + int64(c-'0')
+	}
+	return n, true
 }
 
 // ufFixedLen: uninterpreted functions whose results have a fixed length (e.g. sha512 -> 64).
@@ -643,62 +668,64 @@ func SubstrIn(x, a, l *Term) *Term {
 	case x.Op == "substr!":
 		return SubstrIn(x.Args[0], Add(x.Args[1], a), l)
 	case x.Op == "str.++":
-		// locate piece boundaries syntactically
-		off := IntC(0)
+		// locate piece boundaries syntactically: b[0]=0, b[i+1]=b[i]+len(piece i)
+		k := len(x.Args)
+		bnd := make([]*Term, k+1)
+		bnd[0] = IntC(0)
+		for i, p := range x.Args {
+			bnd[i+1] = Add(bnd[i], StrLen(p))
+		}
 		end := Add(a, l)
-		var res []*Term
-		started := false
-		ok := true
-		for _, p := range x.Args {
-			pl := StrLen(p)
-			pend := Add(off, pl)
-			if !started {
-				// does the region start inside/at this piece?
-				ds, okS := constDiff(a, off)    // a - off
-				de, okE := constDiff(pend, a)   // pend - a
-				if okS && ds >= 0 && okE && de > 0 {
-					started = true
-					// region may end within this piece
-					dd, okD := constDiff(pend, end)
-					if okD && dd >= 0 {
-						return SubstrIn(p, IntC(ds), l)
-					}
-					res = append(res, SubstrIn(p, IntC(ds), Sub(pl, IntC(ds))))
-				} else if okS && ds >= 0 && !okE {
-					// cannot tell whether start lies in this piece
-					if okE2, ok2 := constDiff(a, pend); ok2 && okE2 >= 0 {
-						// starts after this piece
-					} else {
-						ok = false
-					}
-				} else if okE && de <= 0 {
-					// starts after this piece
-				} else if okS && ds < 0 {
-					ok = false
-				} else if !okS {
-					if d2, ok2 := constDiff(a, pend); ok2 && d2 >= 0 {
-						// after this piece
-					} else {
-						ok = false
-					}
-				}
-			} else {
-				dd, okD := constDiff(pend, end) // pend - end
-				if okD && dd >= 0 {
-					// ends in this piece
-					take := Sub(pl, IntC(dd))
-					res = append(res, SubstrIn(p, IntC(0), take))
-					return Concat(res...)
-				} else if okD && dd < 0 {
-					res = append(res, p)
-				} else {
-					ok = false
-				}
-			}
-			if !ok {
+		si, c1 := -1, int64(0)
+		for i := k; i >= 0; i-- {
+			if d, ok := constDiff(a, bnd[i]); ok && d >= 0 {
+				si, c1 = i, d
 				break
 			}
-			off = pend
+		}
+		ej, c2 := -1, int64(0)
+		if si >= 0 {
+			for j := si; j <= k; j++ {
+				if d, ok := constDiff(bnd[j], end); ok && d >= 0 {
+					ej, c2 = j, d
+					break
+				}
+			}
+		}
+		if si >= 0 && ej >= 0 {
+			if ej == si {
+				return StrC("") // l == 0
+			}
+			if c1 == 0 && c2 == 0 {
+				return Concat(x.Args[si:ej]...)
+			}
+			if ej-si == 1 {
+				return SubstrIn(x.Args[si], IntC(c1), l)
+			}
+			if si > 0 || ej < k {
+				return SubstrIn(Concat(x.Args[si:ej]...), IntC(c1), l)
+			}
+			// whole concat: try peeling constant-length first/last pieces
+			first, last := x.Args[0], x.Args[k-1]
+			if fl := StrLen(first); c1 > 0 && fl.IsConst() && fl.I.Int64() <= c1 {
+				return SubstrIn(Concat(x.Args[1:]...), IntC(c1-fl.I.Int64()), l)
+			}
+			if ll := StrLen(last); c2 > 0 && ll.IsConst() && ll.I.Int64() <= c2 {
+				return SubstrIn(Concat(x.Args[:k-1]...), IntC(c1), l)
+			}
+			if c1 > 0 {
+				if fl := StrLen(first); fl.IsConst() && fl.I.Int64() > c1 {
+					// split first piece
+					rest := SubstrIn(first, IntC(c1), IntC(fl.I.Int64()-c1))
+					return SubstrIn(Concat(append([]*Term{rest}, x.Args[1:]...)...), IntC(0), l)
+				}
+			}
+			if c2 > 0 {
+				if ll := StrLen(last); ll.IsConst() && ll.I.Int64() > c2 {
+					keep := SubstrIn(last, IntC(0), IntC(ll.I.Int64()-c2))
+					return SubstrIn(Concat(append(append([]*Term{}, x.Args[:k-1]...), keep)...), IntC(c1), l)
+				}
+			}
 		}
 	}
 	return mk("substr!", SStr, x, a, l)
